@@ -16,17 +16,25 @@ from .c18 import minmax_mode, req
 
 META = dict(
     level="model_checking",
-    bounds="parameter-dependent domain expressions (Interval/Circle/Parallelogram/Triangle/Sphere/Point with shape parameters "
-           "affine in t, in s, or in both; one Boolean operation / product / translation / rotation of such shapes; thorough: "
-           "more pairs) with all coefficients symbolic; every subset of {t, s} fixed to symbolic values given as 0-d tensor, "
-           "(1,)-tensor or python scalar; D(**v) compared with D at params=v on k<=2 symbolic rows of the remaining variables: "
-           "_contains of symbolic query points, volume, bounding_box, sample_random_uniform / sample_grid with n<=2 under the "
-           "same draw symbols; the same for D.boundary(**v) and D(**v).boundary; D(t=v)(s=w) = D(t=v,s=w) = D(s=w)(t=v); "
-           "original unchanged; necessary_variables = free variables",
+    bounds="parameter-dependent domain expressions (Interval/Circle/Point; thorough: Parallelogram/Triangle/Sphere) with shape "
+           "parameters affine in t, in s, or in both (one user function of two variables); one Boolean operation, product, "
+           "translation or rotation of such shapes (thorough: Circle x Parallelogram pairs, nesting depth 2); all coefficients "
+           "symbolic; every non-empty subset of {t, s} fixed to symbolic values given as 0-d tensor (also (1,)-tensor and python "
+           "scalar for primitives); D(**v) compared with D at params=v on k<=2 symbolic rows of the remaining variables: "
+           "_contains of symbolic query points (iff), volume (=), bounding_box (=), sample_random_uniform / sample_grid with "
+           "n=2 where both executions receive the SAME draw symbols (cell-wise =); the same for D.boundary(**v) and "
+           "D(**v).boundary, Interval.boundary_left/right; D(t=v)(s=w) = D(s=w)(t=v) = D(t=v,s=w) = D at params; original "
+           "unchanged (attribute/default-table identities and membership terms before/after); necessary_variables = free "
+           "variables before and after, exactly that set suffices, one less raises, an unrelated variable changes nothing; "
+           "CutDomain(contained=True) / UnionDomain(disjoint=True) flags; products fixing their own second-factor variable",
     outside=["shapely/trimesh primitives", "values with more than one element per variable", "k>2 rows, n>2 points",
-             "sampling of Boolean combinations under shared draws (rejection loops): their samples are only required to lie in "
-             "the set denoted by D at the fixed values", "volume/bounding box of dependent products (sampled approximations)"],
-    assumptions=["shapes have positive measure at the examined rows"],
+             "sampling of Boolean combinations: only Interval pairs, samples of D(**v) required to lie in the set D denotes at "
+             "the fixed values, rejection loops unwound to 24 paths / 4 forks per site (beyond: reported as unwound); "
+             "sample_grid of polygons (integer side-ratio forks; membership of grids is C01)",
+             "volume/bounding box of dependent products (sampled approximations)"],
+    assumptions=["shapes have positive measure at the examined rows",
+                 "builtin min()/max() of the polygon/union/intersection bounding_box code are modelled as if-then-else terms "
+                 "(module globals shadowed, see c18.minmax_mode)"],
 )
 
 _BOUNDS = dict(max_paths=64, max_decisions=96, max_forks_per_site=24)
@@ -112,7 +120,7 @@ def shapes_catalog(tier):
         for opn, op in (("+", SH.union), ("-", SH.cut), ("&", SH.inter)):
             out.append(("(%s[t]%s%s[s])" % (ka, opn, kb),
                         (lambda env, ka=ka, kb=kb, op=op: op(SH.PRIMS[ka](env, tag="A", dep="t"), SH.PRIMS[kb](env, tag="B", dep="s"))),
-                        dict(fam="bool", kind=opn, sample=(not quick and opn == "+" and kb == "Circle"))))
+                        dict(fam="bool", kind=opn, sample=False)))
     for opn, op in (("+", SH.union), ("-", SH.cut), ("&", SH.inter)):
         out.append(("(Interval[t]%sInterval[s])" % opn,
                     (lambda env, op=op: op(SH.interval(env, tag="A", dep="t"), SH.interval(env, tag="B", dep="s"))),
@@ -229,8 +237,9 @@ class _TieList(list):
         if self.pos >= len(self.ref):
             self.mismatch = True
         else:
-            kind, shape = self.ref[self.pos][0], self.ref[self.pos][1]
-            if kind != item[0] or tuple(shape) != tuple(item[1]):
+            # same kind and the same number of draws (rand((1,n,1)) and rand((n,1,1)) name their symbols alike)
+            kind, vs = self.ref[self.pos][0], self.ref[self.pos][2]
+            if kind != item[0] or len(vs) != len(item[2]):
                 self.mismatch = True
         self.pos += 1
 
